@@ -6,20 +6,40 @@ from . import tlc, render
 from .common import Scratch, seed as _seed, vlog
 
 SIGS = [1, 2, 3, 4, 5, 6, 7, 8]
-CFG = ("SPECIFICATION Spec\nCONSTANTS MaxTok = %d\n MaxStack = %d\n MaxStmts = %d\n SigId = %d\n Stmts = %s\n"
+CFG = ("SPECIFICATION Spec\nCONSTANTS MaxTok = %d\n MaxStack = %d\n MaxStmts = %d\n SigId = %d\n Stmts = %s\n Lean = %s\n"
        "INVARIANT Emit\nCHECK_DEADLOCK FALSE\n")
 
 _cache = {}
 
 
-def _run(sc, sig, maxtok, stmts, sim=None, depth=None, sd=0):
-    cfg = CFG % (depth if sim else maxtok, 3, 4, sig, "TRUE" if stmts else "FALSE")
+def _run(sc, sig, maxtok, stmts, sim=None, depth=None, sd=0, lean=False):
+    cfg = CFG % (depth if sim else maxtok, 2 if lean else 3, 4, sig, "TRUE" if stmts else "FALSE", "TRUE" if lean else "FALSE")
     extra = ()
     if sim:
         extra = ("-simulate", f"num={sim}", "-depth", str(depth), "-seed", str(sd))
     r = tlc.run_model("ProgGen", cfg, sc, workers=(1 if sim else 8), timeout=900, tags=("P",), extra=extra, heap="6g")
     progs = [json.loads(v[1]) for v in r["prints"]["P"]]
     return progs, r["stats"]
+
+
+def shape(stmts):
+    """statement-kind skeleton of a body (used to stratify samples)"""
+    out = []
+    for s in stmts:
+        t = s["T"]
+        if t == "If":
+            out.append("If(" + shape(s["body"]) + "|" + shape(s.get("orelse", [])) + ")")
+        elif t == "For":
+            out.append("For[" + s["iter"]["T"] + "](" + shape(s["body"]) + ")")
+        elif t == "Assign":
+            tg = s["targets"][0]["T"]
+            out.append("Swap" if tg == "Tuple" else "Assign")
+        elif t == "Return":
+            v = s["value"]
+            out.append("Return:" + (v.get("id", "") if v["T"] == "Name" else v["T"]))
+        else:
+            out.append(t)
+    return ",".join(out)
 
 
 def generate(tier, sd):
@@ -49,6 +69,18 @@ def generate(tier, sd):
                     ps = ps[:80 if sig in deep else 30]
                 for p in ps:
                     out.append((p, f"ProgGen-bfs-sig{sig}"))
+            # statement structure: lean expressions, deeper BFS, stratified by the shape of the body
+            ps, st = _run(sc, sig, 6 if quick else 7, True, lean=True)
+            gstats["generated"] += st.get("generated", 0)
+            gstats["distinct"] += st.get("distinct", 0)
+            gstats["bfs_programs"] += len(ps)
+            rng.shuffle(ps)
+            strata = {}
+            for p in ps:
+                strata.setdefault(shape(p["body"]), []).append(p)
+            for k in sorted(strata):
+                for p in strata[k][: (2 if quick else 12)]:
+                    out.append((p, f"ProgGen-lean-sig{sig}"))
             # deep random behaviours
             ps, st = _run(sc, sig, 0, True, sim=(150 if quick else 3000), depth=(11 if quick else 13), sd=sd * 100 + sig)
             gstats["sim_programs"] += len(ps)
